@@ -116,6 +116,8 @@ R = [
  (r"writer\.go:Writer\.WriteCompressed:index:w\.xref\[ref\.Number\(\)\]", "map access"),
  (r"types\.go:Placeholder\.Set:index:fills\[i\]", "guard: fills has len(x.pos) entries and i ranges over x.pos"),
  (r"types\.go:Placeholder\.Set:index:x\.posRef\[i\]", "guard: x.pos and x.posRef are only ever appended to together (doFormat, method 2) and reset together (Set), i ranges over x.pos"),
+ (r"sequential\.go:FileInfo\.locateObjects:index:prev\[0\]", "guard: prev is a [1]byte array and the index is the constant 0"),
+ (r"sequential\.go:FileInfo\.locateObjects:slice:prev\[:\]", "full slice of a fixed-size array"),
  (r"writer\.go:Writer\.Close:panic:panic\(r\)", "guard: the deferred recover in Close (fix D71) re-raises every panic that is not the object-number-overflow sentinel of Alloc; it introduces no panic of its own"),
  (r"writer\.go:Writer\.Close:index:w\.meta\.ID\[0\](?!#)$", "guard: first occurrence (fix D50): behind `len(w.meta.ID) != 2 ||` in the same condition"),
  (r"writer\.go:Writer\.Close:index:w\.meta\.ID\[[01]\]", "waiver: NewWriter stores nil or a two-element ID; a caller that replaces GetMeta().ID by a shorter slice makes Close panic (API misuse on the writing side, outside 'arbitrary input bytes'; recorded)"),
